@@ -1,8 +1,8 @@
 (** C07 proofs, part 5: the weighted strategy with the draws computed from the seed
     (RNG_Model) is the oracle model under an oracle that is in range: the premise
     [oracle_guard] of [gen_total] / [gen_items] is discharged by RNG_Proofs. *)
+From TU Require Import RNG_Model RNG_Proofs.
 From TU Require Import Base C07_Model C07_Proofs C07_Specs C07_Top C07_Weighted.
-From TU Require RNG_Model RNG_Proofs.
 Require Import Lia ZifyN.
 
 (** what [next_idx] needs of [self.lengths]: every source has a positive length (the
